@@ -60,8 +60,8 @@ theorem classify_hash (c : Char) : (classify c == Cls.hash) = (c == '#') := by
     rw [h2, h3]
 
 /-- the category test of the joined buffer is the specification's directive test -/
-theorem dir_iff (seg : List Surv) : (catV ((firstNonWhite seg).map classify) == Cat.cppDirective) = isDirective seg := by
-  unfold isDirective
+theorem dir_iff (seg : List Surv) : (catV ((firstNonWhite seg).map classify) == Cat.cppDirective) = startsHash seg := by
+  unfold startsHash
   cases h : firstNonWhite seg with
   | none => simp [catV]
   | some c =>
@@ -88,7 +88,7 @@ theorem spec_expect (cnt : Nat) (rs : List RawLine) : ∀ (s : DState) (n : Nat)
     scanPer s (n + 1) rs = some scs → (∀ sc ∈ scs, sc.k1 = false) → (∀ r ∈ rs, plainLine r = true) →
     n + rs.length = cnt → (∀ x ∈ cur, x.lineNo < n + 1) → (∀ x ∈ cur, x.plain = true) →
     v = (firstNonWhite cur.reverse).map classify → lines = linesOf cnt cur.reverse → (lines = [] ↔ v = none) →
-    (((segments (scs.flatMap (·.out)) cur).map fun seg => (isDirective seg, linesOf cnt seg)).filter fun p => !p.2.isEmpty)
+    (((segments (scs.flatMap (·.out)) cur).map fun seg => (startsHash seg, linesOf cnt seg)).filter fun p => !p.2.isEmpty)
       = ((expect v start lines n (scs.map ldOf)).filter fun x => x.2.2.2 != Cat.blank).map sumPair := by
   induction rs with
   | nil =>
